@@ -4,13 +4,15 @@ from core import *
 from core import verdicts as core_verdicts
 
 PID = "C12"
-NFRAG, NMODELS = 14, 9
+NFRAG, NMODELS = 16, 11
 FRAG = {1: "partition model solved", 2: "class-LMI + user LMI model solved", 3: "composite function model solved",
         4: "linear operator with transpose + LMI solved", 5: "construction that raises", 6: "model built and abandoned",
         7: "unbounded solve (None)", 8: "solved model kept referenced and evaluated", 9: "verbose solve",
         10: "solve with trace heuristic", 11: "unsent LMI object, named point, solved", 12: "good solve then infeasible solve",
         13: "DSL objects built with the bare classes, no PEP",
-        14: "solve with its own solver options, everything evaluated afterwards"}
+        14: "solve with its own solver options, everything evaluated afterwards",
+        15: "solved model whose last reference is dropped while the next model is being built",
+        16: "abandoned model in a reference cycle, garbage collected while the next model is being built"}
 
 
 def _cfg(maxhist, forget="{}", trace=False, emit=True):
@@ -51,7 +53,7 @@ def run_items(items):
         r = refs[(t["b"], t["verbose"])]
         o = refs.get((t["b"], 1 - t["verbose"]), r)      # the same model at the other verbosity level
         t.update(ref_snap=r["snap"], ref_hash=r["hash"], ref_rows=r["rows"], ref_val=r["val"], ref_out=r["out"],
-                 oth_hash=o["hash"], oth_rows=o["rows"], oth_val=o["val"])
+                 oth_hash=o["hash"], oth_rows=o["rows"], oth_val=o["val"], oth_out=o["out"])
     return traces
 
 
@@ -83,9 +85,9 @@ def run(tier):
     res.traces += n_int
     res.evaluations += n_int
     res.rule = ("histories = behaviours of spec/Registry.tla: every history of <= 1 fragment and a seeded sample of longer ones "
-                "(<= %d fragments out of 12: partition / LMI / composite / linear-operator models, failed construction, abandoned "
-                "model, unbounded and infeasible solves, referenced objects, verbose and heuristic solves) followed by each of 6 "
-                "models B; compared with B in a fresh interpreter: registry snapshot after PEP() (reflection over all class "
+                "(<= %d fragments out of 16: partition / LMI / composite / linear-operator models, failed construction, abandoned "
+                "model, unbounded and infeasible solves, referenced objects, verbose and heuristic solves, earlier models released or "
+                "garbage collected while B is being built) followed by each of 11 models B (two of them without a finite value); compared with B in a fresh interpreter: registry snapshot after PEP() (reflection over all class "
                 "attributes), SHA-256 of the conic data and of the symbolic rows (exact float bits), returned value" % (
                     2 if tier == "quick" else 3))
     res.samples = [dict(history=[FRAG[k] for k in t["hist"]], model=t["b"], conic_hash=t["hash"], value=t["val"]) for t in
